@@ -27,7 +27,7 @@ W = {
 def profile(r, tier, index):
     return {
         "mailboxes": ["inbox", "work", "a/b"][: r.randint(2, 3)], "sessions": r.randint(1, 2), "weights": W, "init_hi": 6, "sparse": r.random() < 0.5,
-        "ops_lo": 8, "ops_hi": 30 if tier == "thorough" else 22, "mode": "sequential", "pack_knob": True, "pack_p": 0.5,
+        "ops_lo": 8, "ops_hi": 30 if tier == "thorough" else 22, "mode": "sequential", "pack_knob": True, "pack_p": 0.5, "folder_scan_p": 0.3,
         "name_alphabet": ["a", "b", "new", "x.y", "a b", "Drafts"],
     }
 
